@@ -1277,7 +1277,7 @@ func stripParens(x ast.Expr) ast.Expr {
 				// parentheses protect enclosed composite literals
 				return false
 			case *ast.CompositeLit:
-				if isTypeName(x.Type) {
+				if x.Type == nil || isTypeName(x.Type) { // an untyped {...} literal would read as the block
 					strip = false // do not strip parentheses
 				}
 				return false
